@@ -49,6 +49,9 @@ def gen_config(rng):
     cfg = {"pkg": pkg, "missing": missing, "namespace_pkg": (not missing) and rng.random() < 0.15, "modules": mods,
            "fms": rng.random() < 0.5, "glob_perm": rng.randrange(1 << 30), "ctor_args": rng.choice([0, 0, 1]),
            "dyadic": True, "boot_us": rng.choice([0, 64, 640]) * GRID_US}
+    # the directory that holds a namespace package is on sys.path twice (script directory + PYTHONPATH): the
+    # package's __path__ lists the same directory twice, its modules still exist once
+    cfg["path_twice"] = cfg["namespace_pkg"] and rng.random() < 0.5
     # at most one default unless faults are wanted
     if not p_fault:
         seen = False
@@ -243,6 +246,8 @@ def execute(plan, trace=False):
     os.chdir(rundir)
     write_package(cfg, rundir)
     sys.path.insert(0, rundir)
+    if cfg.get("path_twice"):
+        sys.path.insert(0, rundir)
     sys.dont_write_bytecode = True
     importlib.invalidate_caches()
     sim = _Sim(world)
@@ -277,6 +282,8 @@ def execute(plan, trace=False):
 
     selmod.glob = perm_glob
     fault("directory_listing_permuted")
+    if cfg.get("path_twice") and not cfg["missing"]:
+        fault("namespace_package_directory_twice_on_sys_path")
     d = discovery(cfg)
     status, violation = "ok", None
     real_wait = hal.waitForNotifierAlarm
@@ -554,7 +561,9 @@ def simplify(plan):
     if cfg["pkg"] != "autonomous":
         yield dict(plan, config=dict(cfg, pkg="autonomous"))
     if cfg["namespace_pkg"]:
-        yield dict(plan, config=dict(cfg, namespace_pkg=False))
+        yield dict(plan, config=dict(cfg, namespace_pkg=False, path_twice=False))
+    if cfg.get("path_twice"):
+        yield dict(plan, config=dict(cfg, path_twice=False))
     if cfg["ctor_args"]:
         yield dict(plan, config=dict(cfg, ctor_args=0))
     for i, op in enumerate(plan["ops"]):
